@@ -19,8 +19,8 @@ HEADER_DIR = os.path.join(REPO, "source", "include")
 HEADER = os.path.join(HEADER_DIR, "gch", "small_vector.hpp")
 HARNESS = os.path.join(VERIF, "harness")
 CACHE = os.environ.get("SVMON_CACHE", os.path.join(VERIF, ".cache"))
-REPLAYS = os.path.join(VERIF, "replays")
-EVIDENCE = os.path.join(VERIF, "evidence")
+REPLAYS = os.environ.get("SVMON_REPLAYS", os.path.join(VERIF, "replays"))     # overrides are used only by the self-test driver
+EVIDENCE = os.environ.get("SVMON_EVIDENCE", os.path.join(VERIF, "evidence"))
 FINDINGS = os.path.join(VERIF, "KNOWN_FINDINGS.txt")
 JOBS = int(os.environ.get("SVMON_JOBS", "16"))
 
